@@ -179,6 +179,7 @@ type scen struct {
 	rng     *hx.Rng
 	vcache  map[string]bool
 	honest  map[int]bool // members whose fully honest message was delivered to the live party
+	foreign bool         // a sign key is registered for somebody outside the DKG (precondition of the property broken by the scenario)
 	entered bool
 	ending  string
 	sc      script
@@ -531,6 +532,9 @@ func (r *runner) runScript(sc script) {
 			i, _ := strconv.Atoi(w)
 			s.pk[i] = true
 			pkList = append(pkList, i)
+			if i >= n {
+				s.foreign = true
+			}
 		}
 	}
 	sort.Ints(pkList)
@@ -672,6 +676,9 @@ func (r *runner) check(s *scen, o observed, at string) {
 		r.addViol(s, "share-sets-out-of-step", "gSign/rSign differ in size or exceed the threshold",
 			map[string]interface{}{"at": at, "state": o.line})
 	}
+	if s.foreign {
+		return // the joined-group map holds a key that is not a DKG share: recovery is not expected to work
+	}
 	if o.st.CanProcessed && o.st.GRecovered {
 		g := groupsig.VerifySig(s.ks.gpk, s.hash.Bytes(), o.st.GGroupSign)
 		rr := groupsig.VerifySig(s.ks.gpk, s.prand, o.st.RGroupSign)
@@ -692,7 +699,7 @@ func (r *runner) check(s *scen, o observed, at string) {
 // the live party, the party must have ended with a generated, valid block —
 // whatever else the Byzantine senders interleaved.
 func (r *runner) checkFinal(s *scen) {
-	if len(s.honest) < s.ks.k {
+	if len(s.honest) < s.ks.k || s.foreign {
 		return
 	}
 	o := s.observe(s.hash)
